@@ -40,6 +40,9 @@ func init() {
 		Variant{ID: "c15-r2-ctor-swapped", Prop: "C15", File: "mysql_table.go",
 			Old: "\t\tDbName:    database,\n\t\tTableName: table,", New: "\t\tDbName:    table,\n\t\tTableName: database,",
 			Expect: "C15-R2 name-ctor@NewMysqlTableName"},
+		Variant{ID: "c15-r2-second-unguarded-insert", Prop: "C15", File: "streamer.go",
+			Old: "\t\t\tvar info MysqlTable\n", New: "\t\t\tvar info MysqlTable\n\t\t\tif prev, seen := tablesMaps[tableID^1]; seen && prev.tableMap.Name == tm.Name {\n\t\t\t\ttc.table = prev.table\n\t\t\t\ttablesMaps[tableID] = tc\n\t\t\t\tcontinue\n\t\t\t}\n",
+			Expect: "C15-R2 count-guard@parser[insert"},
 		Variant{ID: "c15-r3-missing-id-ignored", Prop: "C15", File: "streamer.go",
 			Old: "\t\t\ttc, ok := tablesMaps[tableID]\n\t\t\tif !ok {\n\t\t\t\treturn pos, newError(fmt.Errorf(\"parseEvents unknown tableID %v in DeleteRows event\", tableID))\n\t\t\t}\n",
 			New: "\t\t\ttc, ok := tablesMaps[tableID]\n\t\t\tif !ok {\n\t\t\t\tcontinue\n\t\t\t}\n",
@@ -117,6 +120,7 @@ func c15R1R2(a *A, r *Roles, ar *Arms) {
 	// stores of tm into the cache
 	storeBlocks := map[*ssa.BasicBlock]bool{}
 	var insert *ssa.MapUpdate
+	var inserts []*ssa.MapUpdate
 	instrs(r.Parser, func(in ssa.Instruction) {
 		switch x := in.(type) {
 		case *ssa.Store:
@@ -134,6 +138,7 @@ func c15R1R2(a *A, r *Roles, ar *Arms) {
 				return
 			}
 			insert = x
+			inserts = append(inserts, x)
 			okKey := isTableIDOf(resolve(x.Key), r)
 			// the inserted entry holds tm
 			holds := false
@@ -183,10 +188,16 @@ func c15R1R2(a *A, r *Roles, ar *Arms) {
 			info = ex
 		}
 	}
-	// guard: comparison len(info.Columns()) vs count from tm; equal edge dominates the insertion
+	// guard: comparison len(info.Columns()) vs count from tm; equal edge dominates the insertion.
+	// With several insertion sites, take as the reference the one that has such a guard.
 	guarded := false
 	var guardIf *ssa.If
-	for _, ce := range dominatingConds(insert.Block()) {
+	for _, cand := range inserts {
+		if guardIf != nil {
+			break
+		}
+		insert = cand
+	for _, ce := range dominatingConds(cand.Block()) {
 		bo, ok := ce.Cond.(*ssa.BinOp)
 		if !ok || (bo.Op != token.NEQ && bo.Op != token.EQL) {
 			continue
@@ -216,6 +227,21 @@ func c15R1R2(a *A, r *Roles, ar *Arms) {
 			guarded = true
 			guardIf = ce.If
 		}
+	}
+	}
+	// every other insertion site must be guarded the same way, and its entry must carry the mapper's answer of this iteration
+	for i, other := range inserts {
+		if other == insert {
+			continue
+		}
+		okG := false
+		for _, ce := range dominatingConds(other.Block()) {
+			if guardIf != nil && ce.If == guardIf && (guardIf.Cond.(*ssa.BinOp).Op == token.EQL) == ce.Val {
+				okG = true
+			}
+		}
+		a.check(okG, "C15-R2", fmt.Sprintf("count-guard@parser[insert#%d]", i+1), w.posOf(other), "insertion guarded by the column-count comparison",
+			"a cache entry is inserted on a path that skips the mapper lookup / the column-count comparison for this table map (e.g. a mapper table reused across table ids): after a schema change rows are attributed to stale columns, or a disagreeing mapper table is accepted")
 	}
 	a.check(guarded, "C15-R2", "count-guard@parser", w.posOf(insert), "insertion dominated by 'mapper column count == table-map column count'",
 		"a mapper table is cached without its column count having been compared for equality with the table map's: rows are attributed to the wrong columns or the column loop indexes out of range")
